@@ -642,14 +642,17 @@ func handleInputStream(s *Session, handler Handler) (err error) {
 		s.sentStanzaMutex.Lock()
 		readerChan, ok := s.sentStanzas[id]
 		s.sentStanzaMutex.Unlock()
+		verifhook.Yield("session.serve.lookup")
 		emptySpace := xml.Name{Local: start.Name.Local}
 		if ok && readerChan.stanzaName == start.Name || readerChan.stanzaName == emptySpace {
 			inner := xmlstream.Inner(r)
+			verifhook.Yield("session.serve.offer")
 			select {
 			case readerChan.c <- iqResponder{
 				r: xmlstream.Wrap(inner, start),
 				c: readerChan.c,
 			}:
+				verifhook.Yield("session.serve.handed")
 				<-readerChan.c
 			case <-readerChan.ctx.Done():
 			}
@@ -1105,6 +1108,7 @@ func (s *Session) sendResp(ctx context.Context, id string, payload xml.TokenRead
 		return nil, err
 	}
 
+	verifhook.Yield("session.sendResp.select")
 	select {
 	case rr := <-c:
 		return &errCloser{TokenReadCloser: rr}, nil
